@@ -36,6 +36,8 @@ def label_of(out):
         return m.group(1), m.group(2).strip()
     kind, summ = summarize(out)
     if kind in ('asan', 'ubsan', 'lsan'):
+        if kind != 'lsan' and '/repo/' not in out.split('SUMMARY')[0]:
+            return 'HARNESS', 'harness-bug:' + kind + ':' + summ       # no frame of the library involved: my bug, never a finding
         return None, 'sanitizer:' + kind + ':' + summ
     if 'ERROR: libFuzzer: deadly signal' in out or 'SEGV' in out:
         return None, 'sanitizer:signal:' + summ
@@ -136,6 +138,9 @@ def campaign(prop, target, seeds, seconds, workers, seed, report=None, ignore=No
         rc, out = run_once(target, a, renv)
         p, l = label_of(out)
         if l is None:
+            continue
+        if p == 'HARNESS':
+            notes.append('HARNESS-BUG ' + l)
             continue
         p = p or prop_for_sanitizer(target)
         if (p, l) in seen:
